@@ -161,6 +161,8 @@ type fakeAuth struct {
 	mu     sync.Mutex
 	log    []string
 	lastNT string // outcome of the last NTLM call: err | reject | challenge | ok:<user>
+	// slow: how long the verification of "user:password" takes (a PAM or MFA backend)
+	slow map[string]time.Duration
 }
 
 func startFakeAuth(sock string, users map[string]string) *fakeAuth {
@@ -184,7 +186,11 @@ func (f *fakeAuth) Authenticate(_ context.Context, m *auth.UserPass) (*auth.Auth
 	pw, ok := f.users[m.Username]
 	f.mu.Lock()
 	f.log = append(f.log, "basic:"+m.Username)
+	d := f.slow[m.Username+":"+m.Password]
 	f.mu.Unlock()
+	if d > 0 {
+		time.Sleep(d)
+	}
 	return &auth.AuthResponse{Authenticated: ok && pw != "" && pw == m.Password}, nil
 }
 
